@@ -216,23 +216,29 @@ def ref_normalize(s: str) -> str:
 # ------------------------------------------------------------------------------------------------
 
 class _Filter:
-    """stands in for the Custodian filter: `c7nlib.image()` reaches it through `C7N.filter`"""
+    """stands in for the Custodian filter: `c7nlib.image()` reaches it through `C7N.filter`.
 
-    def __init__(self, ident: int, log: List[Any]):
+    Custodian filters are data-like objects: two filters built from the same policy text compare equal although they
+    belong to different managers/regions.  The property speaks about THE filter installed for an evaluation, i.e. object
+    identity.  `eq` is the equality class of the stand-in: stand-ins of one class compare (and hash) equal although they
+    are different objects with different `ident`s (seeded C17-m5: a context kept "per equal filter")."""
+
+    def __init__(self, ident: int, log: List[Any], eq: int = 0):
         self.ident = ident
         self.log = log
+        self.eq = eq
 
-    # Custodian filters are data-like objects: two filters built from the same policy text compare equal although they
-    # belong to different managers/regions.  The property speaks about THE filter installed for an evaluation, i.e. object
-    # identity, so every stand-in compares equal to every other one (seeded C17-m5: a context cached "per equal filter").
     def __eq__(self, other):
-        return isinstance(other, _Filter)
+        return isinstance(other, _Filter) and other.eq == self.eq
 
     def __ne__(self, other):
-        return not isinstance(other, _Filter)
+        return not self.__eq__(other)
 
     def __hash__(self):
-        return 17
+        return 17 + self.eq
+
+    def __repr__(self):
+        return f"_Filter({self.ident}, eq={self.eq})"
 
     def get_instance_image(self, resource):
         self.log.append(self.ident)
@@ -244,6 +250,7 @@ class _Impl:
 
     def __init__(self):
         self.progs: Dict[Any, Any] = {}
+        self.envs: Dict[Any, Any] = {}
         self.log: List[Any] = []
 
     def lib(self):
@@ -272,9 +279,17 @@ class _Impl:
             import celpy
             L = self.lib()
             rc = {"I": celpy.InterpretedRunner, "C": celpy.CompiledRunner, "R": L.C7N_Interpreted_Runner}[runner]
-            env = celpy.Environment(runner_class=rc)
-            self.progs[k] = env.program(env.compile(src), functions=self.functions())
+            if k not in self.envs:
+                env = celpy.Environment(runner_class=rc)
+                self.envs[k] = (env, env.compile(src))
+            env, ast_ = self.envs[k]
+            self.progs[k] = env.program(ast_, functions=self.functions())
         return self.progs[k]
+
+    def fresh_programs(self):
+        """a context history is a self-contained case: it starts with program (runner) objects of its own, so whatever a
+        runner keeps between evaluations comes from THIS history (the parsed expressions are kept)"""
+        self.progs = {}
 
     def cel(self, src: str, runner: str, act: Dict[str, Any]):
         return self.prog(src, runner).evaluate(act)
@@ -392,10 +407,18 @@ def run_hist(hist: List[Dict[str, Any]]) -> str:
     def cur():
         c = L.C7N
         return None if c is None else c.filter.ident
+    IMPL.fresh_programs()
+    objs: Dict[int, _Filter] = {}
+
+    def filt(ident: int, eq: int) -> _Filter:
+        # one object per ident: an item that names an earlier ident re-installs the very same filter object
+        if ident not in objs:
+            objs[ident] = _Filter(ident, log, eq)
+        return objs[ident]
     for it in hist:
         log.append(cur())
         src = hist_src(it)
-        f = _Filter(it["f"], log)
+        f = filt(it["f"], it.get("eq", 0))
         try:
             st = it["style"]
             if st == "with":
@@ -406,7 +429,7 @@ def run_hist(hist: List[Dict[str, Any]]) -> str:
                 IMPL.prog(src, "R").evaluate(act, filter=f)
             elif st == "nested":
                 p = IMPL.prog(src, "R")
-                with L.C7NContext(filter=_Filter(it["g"], log)):
+                with L.C7NContext(filter=filt(it["g"], it.get("geq", 0))):
                     p.evaluate(act, filter=f)
                     log.append(cur())
             else:  # bare: no context at all
@@ -700,8 +723,8 @@ class C17(Prop):
                     add({"kind": "arn", "prefix": "arn", "fields": fields, "field": name}, via)
 
         # --- context histories ---
-        def item(fail: bool, i: int) -> Dict[str, Any]:
-            st = rng.choice(["with", "with", "runner", "nested", "bare"])
+        def item(fail: bool, i: int, prev: Optional[Dict[str, Any]]) -> Dict[str, Any]:
+            st = rng.choice(["with", "with", "runner", "runner", "nested", "bare"])
             it = {"style": st, "f": i + 1, "g": 100 + i, "nobs": rng.choice([1, 1, 2]), "runner": "I", "obs": "observe",
                   "fail": "no"}
             if st == "with" and rng.random() < 0.5:
@@ -712,13 +735,43 @@ class C17(Prop):
                 it["obs"] = "image"
             if fail:
                 it["fail"] = rng.choice(["cel", "exc"] + (["boom"] if it["runner"] == "I" else []))
+            # the same program evaluated again (one program object serves many resources/filters): take the shape of
+            # the previous item so that the source text - hence the runner object - is the same
+            if prev is not None and rng.random() < 0.5 and prev["style"] != "bare" and st != "bare":
+                it["nobs"], it["obs"] = prev["nobs"], prev["obs"]
+                if it["runner"] == "C" and it["obs"] != "image":
+                    it["runner"] = "I"
+                if (prev["fail"] != "no") == fail:
+                    it["fail"] = prev["fail"]
+            if it["runner"] == "C" and it["fail"] == "boom":
+                it["fail"] = "exc"
+            # identity vs. equality of filters: most stand-ins of a history are different objects that compare equal;
+            # sometimes the very same object is installed again; sometimes they differ also by value
+            r = rng.random()
+            if prev is not None and r < 0.15:
+                it["f"], it["eq"] = prev["f"], prev.get("eq", 0)
+            elif r < 0.8:
+                it["eq"] = 0
+            else:
+                it["eq"] = i + 1
+            it["geq"] = 0 if rng.random() < 0.6 else 100 + i
             return it
+
+        def history(bits) -> List[Dict[str, Any]]:
+            h: List[Dict[str, Any]] = []
+            for i, b in enumerate(bits):
+                h.append(item(b, i, h[-1] if h else None))
+            return h
         maxlen = 6
         for n in range(0, maxlen + 1):
             for bits in itertools.product([False, True], repeat=n):
                 reps = 1 if quick else 6
                 for _ in range(reps):
-                    cases.append({"kind": "ctx", "hist": [item(b, i) for i, b in enumerate(bits)], "via": "py", "style": "fn"})
+                    cases.append({"kind": "ctx", "hist": history(bits), "via": "py", "style": "fn"})
+        # short histories are where a kept context shows first: many seeded variants of length 2..4
+        for _ in range(250 if quick else 3000):
+            n = rng.randint(2, 4)
+            cases.append({"kind": "ctx", "hist": history([rng.random() < 0.3 for _ in range(n)]), "via": "py", "style": "fn"})
         return cases
 
     # ---- implementation -------------------------------------------------------------------------------
